@@ -582,8 +582,27 @@ tx_outs:\n{tx_outs}
         """Returns whether the input has a valid signature"""
         # get the relevant input
         tx_in = self.tx_ins[input_index]
+        script_pubkey = tx_in.script_pubkey(self.network)
+        sig_commands = tx_in.script_sig.commands
+        if script_pubkey.is_witness_script() or script_pubkey.is_p2tr():
+            # BIP141/BIP341: a native witness output is spent with an empty ScriptSig
+            if len(sig_commands) > 0:
+                return False
+        elif script_pubkey.is_p2sh():
+            # BIP16: the ScriptSig is push-only and ends with the RedeemScript
+            if len(sig_commands) == 0 or not isinstance(sig_commands[-1], bytes):
+                return False
+            if any(isinstance(c, int) and c > 96 for c in sig_commands):
+                return False
+            # BIP141: a P2SH-wrapped witness program is the only ScriptSig element
+            redeem = sig_commands[-1]
+            if len(sig_commands) > 1 and (
+                (len(redeem) == 22 and redeem[:2] == b"\x00\x14")
+                or (len(redeem) == 34 and redeem[:2] == b"\x00\x20")
+            ):
+                return False
         # combine the scripts
-        combined_script = tx_in.script_sig + tx_in.script_pubkey(self.network)
+        combined_script = tx_in.script_sig + script_pubkey
         # evaluate the combined script
         return combined_script.evaluate(self, input_index)
 
